@@ -803,7 +803,7 @@ func (m *repoManager) loadMetadata() error {
 	// Handle version ID management, making sure our internal local version ID is
 	// always greater than whatever we currently have.  (Corrects issues in metadata from early bug.)
 	for v := range m.versionToUUID {
-		if v > m.versionID {
+		if v >= m.versionID {
 			dvid.TimeErrorf("Found data version %d >= current new local version ID %d.  Correcting metadata...\n", v, m.versionID)
 			m.versionID = v + 1
 			saveIDs = true
